@@ -96,26 +96,36 @@ def hier_prox_row(v, u, alpha, M):
     nv = float(np.linalg.norm(v))
     au = np.abs(u)
 
-    def phi(r):
-        return 0.5 * (r - nv) ** 2 + alpha * r + 0.5 * np.sum(np.maximum(au - M * r, 0.0) ** 2)
+    def dphi(r):
+        # derivative of the reduced convex objective (non-decreasing, piecewise linear)
+        return r - nv + alpha - M * np.sum(np.maximum(au - M * r, 0.0))
 
-    cands = [0.0]
-    if M > 0:
-        bps = np.unique(au / M)
-        edges = np.concatenate([[0.0], bps, [np.inf]])
+    if dphi(0.0) >= 0:
+        r = 0.0
     else:
-        edges = np.array([0.0, np.inf])
-    for lo, hi in zip(edges[:-1], edges[1:]):
-        if hi <= lo:
-            continue
-        mid = lo + 1.0 if np.isinf(hi) else 0.5 * (lo + hi)
-        S = au > M * mid
-        r = (nv - alpha + M * au[S].sum()) / (1 + S.sum() * M * M)
-        r = max(r, lo)
-        if not np.isinf(hi):
-            r = min(r, hi)
-        cands.append(max(r, 0.0))
-    r = min(cands, key=phi)
+        if M > 0:
+            bps = np.unique(au / M)
+            edges = np.concatenate([[0.0], bps, [np.inf]])
+        else:
+            edges = np.array([0.0, np.inf])
+        r = None
+        best = None
+        for lo, hi in zip(edges[:-1], edges[1:]):
+            if hi <= lo:
+                continue
+            mid = lo + 1.0 if np.isinf(hi) else 0.5 * (lo + hi)
+            S = au > M * mid
+            cand = (nv - alpha + M * au[S].sum()) / (1 + S.sum() * M * M)     # root of the derivative on this piece
+            slack = 1e-12 * max(1.0, abs(cand))
+            if lo - slack <= cand <= hi + slack:
+                r = min(max(cand, lo), hi)
+                break
+            clamped = min(max(cand, lo), hi)
+            if best is None or abs(dphi(clamped)) < abs(dphi(best)):
+                best = clamped
+        if r is None:
+            r = best if best is not None else 0.0
+        r = max(r, 0.0)
     beta = r * v / nv if nv > 0 else np.zeros_like(v)
     theta = np.sign(u) * np.minimum(au, M * r)
     return beta, theta, (nv > 0 or r == 0)
